@@ -269,9 +269,23 @@ type rtmrReq struct {
 	Digest []byte `json:"digest,omitempty"`
 	Hash   uint   `json:"hash,omitempty"`
 	Log    []byte `json:"log,omitempty"`
+	// LogN > 0: the event log is LogN generated bytes (byte i = LogK + i), written out only when it is used
+	LogN int  `json:"log_n,omitempty"`
+	LogK byte `json:"log_k,omitempty"`
 	// Kind "external": somebody else (another process, an administrator) changes the TSM tree between two library calls:
 	// "remove:NAME", "create:NAME=INDEX" (a removed name may come back bound to another register)
 	Ext string `json:"ext,omitempty"`
+}
+
+func (q rtmrReq) log() []byte {
+	if q.LogN == 0 {
+		return q.Log
+	}
+	b := make([]byte, q.LogN)
+	for i := range b {
+		b[i] = q.LogK + byte(i)
+	}
+	return b
 }
 
 func (q rtmrReq) String() string {
@@ -281,7 +295,7 @@ func (q rtmrReq) String() string {
 	if q.Kind == "digest" {
 		return fmt.Sprintf("digest(idx=%d,len=%d,%x)", q.Index, len(q.Digest), q.Digest[:min(2, len(q.Digest))])
 	}
-	return fmt.Sprintf("log(idx=%d,hash=%d,len=%d)", q.Index, q.Hash, len(q.Log))
+	return fmt.Sprintf("log(idx=%d,hash=%d,len=%d)", q.Index, q.Hash, max(len(q.Log), q.LogN))
 }
 
 // valid reports whether the statement accepts the request, and the digest it must extend.
@@ -292,10 +306,10 @@ func (q rtmrReq) valid() (bool, []byte) {
 	if q.Kind == "digest" {
 		return len(q.Digest) == 48, q.Digest
 	}
-	if crypto.Hash(q.Hash) != crypto.SHA384 || len(q.Log) == 0 {
+	if crypto.Hash(q.Hash) != crypto.SHA384 || len(q.Log)+q.LogN == 0 {
 		return false, nil
 	}
-	s := sha512.Sum384(q.Log)
+	s := sha512.Sum384(q.log())
 	return true, s[:]
 }
 
@@ -372,7 +386,7 @@ func runRtmrHistory(h *rtmrHistory) rtmrResult {
 			if q.Kind == "digest" {
 				err = rtmr.ExtendDigestClient(cl, q.Index, q.Digest)
 			} else {
-				err = rtmr.ExtendEventLogClient(cl, q.Index, crypto.Hash(q.Hash), q.Log)
+				err = rtmr.ExtendEventLogClient(cl, q.Index, crypto.Hash(q.Hash), q.log())
 			}
 		})
 		m.mu.Lock()
@@ -539,6 +553,15 @@ func c17(x *mon.Ctx) {
 	// event logs at sizes where a chunked reader meets its buffer boundary (64 KiB, 1 MiB and multiples, one byte either side)
 	for k, n := range []int{65535, 65536, 65537, 1<<20 - 1, 1 << 20, 1<<20 + 1, 1<<20 + 1<<19, 2 << 20, 3 << 20, 4<<20 + 1} {
 		hs = append(hs, &rtmrHistory{Reqs: []rtmrReq{{Kind: "log", Index: k % 4, Hash: uint(crypto.SHA384), Log: dg(n, byte(k))}, {Kind: "digest", Index: k % 4, Digest: dg(48, 9)}}})
+	}
+	// ... and far beyond (a log is hashed whole, whatever its size): 16 MiB and 32 MiB either side, more in the thorough tier
+	bigs := []int{16<<20 - 1, 16 << 20, 16<<20 + 1, 32<<20 + 5}
+	if !x.Quick() {
+		bigs = append(bigs, 64<<20+1, 128<<20-1, 256<<20+3)
+	}
+	for k, n := range bigs {
+		hs = append(hs, &rtmrHistory{Reqs: []rtmrReq{{Kind: "log", Index: k % 4, Hash: uint(crypto.SHA384), LogN: n, LogK: byte(k)}, {Kind: "digest", Index: k % 4, Digest: dg(48, 9)}}},
+			&rtmrHistory{Reqs: []rtmrReq{{Kind: "log", Index: (k + 1) % 4, Hash: uint(crypto.SHA256), LogN: n, LogK: byte(k)}, {Kind: "log", Index: (k + 1) % 4, Hash: uint(crypto.SHA384), LogN: n + 1, LogK: byte(k)}}})
 	}
 	// somebody else re-arranges the TSM tree between two library calls: an entry the library has used is removed and a new one
 	// comes back under the SAME name bound to ANOTHER register (and the old register gets a differently named entry, or none)
